@@ -165,6 +165,12 @@ class Gen:
                     dep = order[self.rng.randrange(i)][0]
                     if dep not in t["deps"]:
                         t["deps"].append(dep)
+                    # ... and a test of ANOTHER suite that bears the same name as that dependency (dependencies are paths, not names)
+                    twins = [order[j][0] for j in range(i) if order[j][0] != dep and order[j][0].rsplit(".", 1)[-1] == dep.rsplit(".", 1)[-1]]
+                    if twins and self.rng.random() < 0.6:
+                        tw = self.rng.choice(twins)
+                        if tw not in t["deps"]:
+                            t["deps"].append(tw)
         return {"fixtures": fxs, "suites": suites}
 
 
